@@ -105,7 +105,7 @@ func (h Handler) ServeHTTP(w http.ResponseWriter, r *http.Request) (int, error) 
 
 		// These criteria work well in this order for PHP sites
 		// We lower path and Ext as on Windows, the system is case insensitive, so .PHP is served as .php
-		if !h.exists(fpath) || fpath[len(fpath)-1] == '/' || strings.HasSuffix(strings.ToLower(fpath), strings.ToLower(rule.Ext)) {
+		if !h.exists(fpath) || strings.HasSuffix(fpath, "/") || strings.HasSuffix(strings.ToLower(fpath), strings.ToLower(rule.Ext)) {
 
 			// Create environment for CGI script
 			env, err := h.buildEnv(r, rule, fpath)
@@ -218,7 +218,7 @@ func parseAddress(fcgiAddress string) (string, string) {
 		return "tcp", fcgiAddress[len("fastcgi://"):]
 	}
 	// check if unix socket
-	if trim := strings.HasPrefix(fcgiAddress, "unix"); strings.HasPrefix(fcgiAddress, "/") || trim {
+	if trim := strings.HasPrefix(fcgiAddress, "unix:"); strings.HasPrefix(fcgiAddress, "/") || trim {
 		if trim {
 			return "unix", fcgiAddress[len("unix:"):]
 		}
@@ -264,10 +264,14 @@ func (h Handler) buildEnv(r *http.Request, rule Rule, fpath string) (map[string]
 	// Split path in preparation for env variables.
 	// Previous rule.canSplit checks ensure this can never be -1.
 	splitPos := rule.splitPos(fpath)
+	splitEnd := splitPos + len(rule.SplitPath)
+	if splitPos < 0 || splitEnd > len(fpath) {
+		return nil, ErrIndexMissingSplit
+	}
 
 	// Request has the extension; path was split successfully
-	docURI := fpath[:splitPos+len(rule.SplitPath)]
-	pathInfo := fpath[splitPos+len(rule.SplitPath):]
+	docURI := fpath[:splitEnd]
+	pathInfo := fpath[splitEnd:]
 	scriptName := fpath
 
 	// Strip PATH_INFO from SCRIPT_NAME
@@ -466,7 +470,16 @@ func (r Rule) splitPos(path string) int {
 	if httpserver.CaseSensitivePath {
 		return strings.Index(path, r.SplitPath)
 	}
-	return strings.Index(strings.ToLower(path), strings.ToLower(r.SplitPath))
+	// look for the split string in path itself: a position in the
+	// lower-cased path is not one in path when lowering changes the
+	// length of what precedes it (invalid UTF-8, letters like U+023A)
+	n := len(r.SplitPath)
+	for i := 0; i+n <= len(path); i++ {
+		if strings.EqualFold(path[i:i+n], r.SplitPath) {
+			return i
+		}
+	}
+	return -1
 }
 
 // AllowedPath checks if requestPath is not an ignored path.
